@@ -10,7 +10,7 @@ import UtilModel.Conc.Monitors
 import UtilModel.Treiber.Monitors
 import UtilModel.LinkedList.Monitors
 import UtilModel.Broadcast.LockModel
-import UtilModel.CContainer.Monitors
+import UtilModel.CContainer.WModel
 import UtilModel.RefCount.ConsMonitors
 import UtilModel.RefCount.Wrc
 import UtilModel.Routine.Monitors
@@ -39,7 +39,7 @@ def registry : List Entry := [
   mkEntryH "lifo" Treiber.model Treiber.Obs.parse [MonEntry.ofMonitor "C12" Treiber.monC12] (cap := 60000),
   mkEntryH "linkedlist" LinkedList.model LinkedList.parseObs [MonEntry.ofMonitor "C12" LinkedList.monC12] (cap := 60000),
   mkEntryH "broadcast" Broadcast.lmodel Broadcast.Obs.parse [MonEntry.ofMonitor "C03" Broadcast.monC03L],
-  mkEntryH "ccontainer" CContainer.model CContainer.Obs.parse [MonEntry.ofMonitor "C15" CContainer.monC15],
+  mkEntryH "ccontainer" CContainer.wmodel CContainer.WObs.parse [MonEntry.ofMonitor "C15" CContainer.monC15W],
   mkEntryH "refcount" RefCount.model RefCount.Obs.parse [MonEntry.ofMonitor "C08" RefCount.monC08, MonEntry.ofMonitor "C09" RefCount.monC09],
   mkEntryH "refcount-consumers" RefCount.Cons.cmodel RefCount.Cons.CObs.parse [MonEntry.ofMonitor "C10" RefCount.Cons.monC10, MonEntry.ofMonitor "C08c" RefCount.Cons.monC08c, MonEntry.ofMonitor "C09c" RefCount.Cons.monC09c] (cap := 20000),
   mkEntryH "refcount-wrc" RefCount.Wrc.model RefCount.Wrc.Obs.parse [MonEntry.ofMonitor "C10w" RefCount.Wrc.monWrc],
